@@ -8,6 +8,7 @@ from ..oracles import closed_form as CF
 from ..oracles.psd import penrose_residuals, ambiguous_rank, explicit_cov
 from ..workloads import data as D
 
+EPS = np.finfo(float).eps
 ID = 'C09'
 LEVEL = 'exploration'
 RULE = ('cases = Covariance on full-rank and exactly rank-deficient data '
@@ -48,10 +49,11 @@ def setup_worker(tier=None):
 def cases(tier, seed):
   out = []
   q = tier == 'quick'
-  n_cov, n_rca, n_lfda = (16, 24, 40) if q else (200, 500, 1000)
+  n_cov, n_rca, n_lfda = (24, 24, 40) if q else (240, 500, 1000)
   for i in range(n_cov):
     out.append({'kind': 'cov', 'i': i, 'seed': seed,
-                'mode': ['full', 'dupcol', 'n<=d', 'd=1', 'zero-var'][i % 5]})
+                'mode': ['full', 'dupcol', 'n<=d', 'd=1', 'zero-var',
+                         'wide-scales'][i % 6]})
   for i in range(n_rca):
     out.append({'kind': 'rca', 'i': i, 'seed': seed,
                 'supervised': bool(i % 3 == 2)})
@@ -65,6 +67,7 @@ def cases(tier, seed):
 def required(tier):
   q = tier == 'quick'
   return {'C09.cov.penrose': 10 if q else 120,
+          'C09.cov.reciprocal-spectrum': 10 if q else 120,
           'C09.rca.full': 6 if q else 100,
           'C09.rca.reduced': 6 if q else 100,
           'C09.rca.whitens': 12 if q else 250,
@@ -90,6 +93,14 @@ def _cov(spec, j):
   n = int(rng.randint(4 * d, 6 * d + 5))
   X = rng.randn(n, d) * np.exp(rng.uniform(-2, 2, size=d))
   X = X.dot(D.random_orthogonal(rng, d)) + rng.randn(d) * 3
+  if mode == 'wide-scales':
+    # features in very different units: the covariance is far from singular
+    # in double precision (eigenvalue ratios down to 1e-11) and must be
+    # inverted, not truncated
+    X = rng.randn(n, d) * 10.0 ** rng.uniform(-2.75, 2.75, size=d)
+    X[:, 0] *= 10.0 ** 2.75 / np.abs(X[:, 0]).std()
+    X[:, 1] *= 10.0 ** -2.75 / np.abs(X[:, 1]).std()
+    X = X + rng.randn(d) * X.std(0)
   if mode == 'dupcol':
     X[:, -1] = X[:, 0]
   elif mode == 'n<=d':
@@ -108,10 +119,21 @@ def _cov(spec, j):
       return
   M = est.get_mahalanobis_matrix()
   C = np.atleast_2d(explicit_cov(X))
-  w = np.linalg.eigvalsh(C)
-  if ambiguous_rank(w):
+  w, V = np.linalg.eigh(C)
+  # an eigenvalue within a few hundred ulps of the largest one is rounding
+  # noise of the covariance itself (rank undecidable); anything above 1e-12
+  # of the largest is resolved to better than 1e-3 and clearly non-zero
+  if ambiguous_rank(w, lo=1e-14, hi=1e-12):
     j.skip('C09.cov', 'ambiguous-rank')
     return
+  # spectrum of M is the reciprocal spectrum of C on C's range
+  worst = 0.0
+  for lam, v in zip(w, V.T):
+    if lam > 1e-12 * w.max():
+      tol_i = 1e-9 + 1e3 * EPS * w.max() / lam
+      worst = max(worst, abs(float(v.dot(M).dot(v)) * lam - 1.0) / tol_i)
+  j.close('C09.cov.reciprocal-spectrum', worst, 0.0, 1.0,
+          dict(det, eigenvalues_of_cov=w))
   res = penrose_residuals(C, M)
   pos = w[w > w.max() * 1e-9] if w.max() > 0 else w
   cond = (pos.max() / pos.min()) if len(pos) else 1.0
